@@ -227,6 +227,26 @@ CURATED: Dict[str, Spec] = {
         )),
         ("O", A()),
     ),
+    # history default targets in every documented spelling: dot-relative ('.details' = sibling of the history node),
+    # dotted relative path, absolute '#m...' - with a state of the same name one level up, so that resolving the
+    # default from the wrong reference node silently lands somewhere else; never visited (W is off the initial path)
+    "CUR17": C(
+        ("O", A()),
+        ("W", C(
+            ("intro", A()),
+            ("details", C(("d1", A()), ("d2", A()))),
+            ("deck", P(
+                ("tr", C(("stopped", A()), ("playing", A()), ("hr", HS(".playing")))),
+                ("vol", C(("normal", A()), ("loud", A()))),
+            )),
+            ("h1", HS(".details")),
+            ("h2", HD(".details.d2")),
+            ("h3", HD("#m.W.deck.tr.playing")),
+            ("h4", HS("deck")),
+        )),
+        ("details", A()),
+        ("playing", A()),
+    ),
     "CUR9": C(
         ("W", C(
             ("s1", A()),
